@@ -52,10 +52,14 @@ type mSeries struct {
 type dbModel struct {
 	series map[string]*mSeries
 	R, W   int64
+	// everHist: series to which a histogram or float histogram was ever appended (accepted by an
+	// Append call, committed or not). Only for such a series can a staleness marker be stored with
+	// a histogram sample type (see classify).
+	everHist map[string]bool
 }
 
 func newDBModel(r, w int64) *dbModel {
-	return &dbModel{series: map[string]*mSeries{}, R: r, W: w}
+	return &dbModel{series: map[string]*mSeries{}, R: r, W: w, everHist: map[string]bool{}}
 }
 
 func (m *dbModel) get(sk string) *mSeries {
@@ -111,10 +115,12 @@ func (tx *mTxn) classify(sk string, t int64, val string) string {
 		}
 		if t == s.inOrderMax {
 			if s.lastVal == val {
-				if val == "stale" {
+				if val == "stale" && tx.m.everHist[sk] {
 					// A staleness marker is stored with the sample type of the series (float, histogram
 					// or float histogram); re-appending one through a different type is not
 					// "bit-identical" in every reading of the statement: accept no-op or duplicate error.
+					// A series that never received a histogram can only hold a FLOAT marker, and the
+					// alphabets append markers as floats: that re-append is bit-identical => no-op.
 					return mNoopOrDup
 				}
 				return mNoop
@@ -147,6 +153,9 @@ func (tx *mTxn) append(sk string, t int64, val string) string {
 	switch c {
 	case mInOrder, mNoop, mOOO, mNoopOrDup:
 		tx.pend = append(tx.pend, mPend{sk, t, val})
+		if strings.HasPrefix(val, "h:") || strings.HasPrefix(val, "fh:") {
+			tx.m.everHist[sk] = true
+		}
 	}
 	return c
 }
@@ -193,6 +202,9 @@ func (tx *mTxn) rollback() { tx.pend = nil }
 func (tx *mTxn) forceOOO(sk string, t int64, val string) {
 	tx.pend = append(tx.pend, mPend{sk, t, val})
 	tx.forced = true
+	if strings.HasPrefix(val, "h:") || strings.HasPrefix(val, "fh:") {
+		tx.m.everHist[sk] = true
+	}
 }
 
 func (s *mSeries) store(t int64, val string, ooo bool) {
